@@ -20,3 +20,9 @@ def fill(check, na):
           "post-heal quiescence close() must have closed both ends and freed the id. Three mechanisms are listed known findings.",
           "Same rig as C01. bufferedAmount equality is evaluated while the channel is open and no hand-over is suspended (relay mode). Known findings are suppressed by mechanism classifiers over the witness, see known_findings.json.",
           "DESIGN.md 3/C13")
+    check("C07", "round-trip / field-semantics oracles on generated RTP and RTCP values through the real builders and parsers, icontract post-conditions on the packing helpers",
+          "Held on the values generated: every value of every batch is serialised with the real code, parsed back and compared "
+          "field by field; NACK sets, cumulative-loss clamp, REMB mantissa bounds and RTX inversion are checked exactly. Sampled, "
+          "with the (single lost, follower distance 1..17) NACK grid enumerated in slices.",
+          "Values are generated inside the wire ranges; padding bytes are random by design and not compared; extensions not configured in the id map are not expected to survive.",
+          "DESIGN.md 3/C07")
